@@ -2421,6 +2421,11 @@ func (db *DB) WriteLTXFileAt(ctx context.Context, r io.Reader) (string, error) {
 		return "", fmt.Errorf("decode ltx header: %w", err)
 	}
 
+	// The page size of an existing database cannot change: the file could not be applied.
+	if db.pageSize != 0 && hdr.PageSize != db.pageSize {
+		return "", fmt.Errorf("ltx page size (%d) does not match database page size (%d)", hdr.PageSize, db.pageSize)
+	}
+
 	// Validate TXID/preApplyChecksum before renaming.
 	prevPos := db.Pos()
 	if !hdr.IsSnapshot() {
